@@ -37,7 +37,7 @@ pub enum DisabledOptions {
     NoEicall,
     /// No EIJMP instruction
     NoEijmp,
-    /// ATtiny10, 20, 40 no ADIW, SBIW, one word LDS/STS
+    /// ATtiny10, 20, 40 no ADIW, SBIW, LDD, STD, one word LDS/STS
     Avr8l,
 }
 
@@ -95,9 +95,11 @@ impl Device {
             | Operation::Push
             | Operation::Pop => {
                 if self.allow(Tiny1x) {
-                    // ATtiny10, 20, 40 no ADIW, SBIW, one word LDS/STS
+                    // ATtiny10, 20, 40 no ADIW, SBIW, LDD, STD, one word LDS/STS
                     match op {
-                        Operation::Adiw | Operation::Sbiw => self.allow(Avr8l),
+                        Operation::Adiw | Operation::Sbiw | Operation::Ldd | Operation::Std => {
+                            self.allow(Avr8l)
+                        }
                         _ => true,
                     }
                 } else {
